@@ -201,6 +201,14 @@ class World:
             # non-trivial tariffs
             prices = immutables.Map({k: rng.choice([0.0, 0.13, 0.31, 1.7, -0.05]) for k in kinds})
             _, st = st.update_prices(prices)
+            if rng.random() < 0.3:
+                # a station whose plugs were throttled locally: its own rate, not the catalogue's, is what it delivers
+                k = rng.choice(kinds)
+                res = st.scale_charger_rate(k, rng.choice([0.25, 0.5, 0.8]))
+                try:
+                    st = res.unwrap()
+                except Exception:
+                    pass
             stations.append(st)
         bases = []
         for bid in self.base_ids:
